@@ -353,7 +353,7 @@ class RunEngineSimulator:
         it = iter(docs)
 
         def handle_command(_):
-            for name, doc in next(it):
+            for name, doc in next(it, ()):
                 self.fire_callback(name, doc)
 
         self.add_handler(command, handle_command, msg_filter)
@@ -390,18 +390,22 @@ class RunEngineSimulator:
         """
         messages = []
         send_value = None
-        try:
-            while msg := gen.send(send_value):
-                send_value = None
-                messages.append(msg)
-                LOGGER.debug("<%s", msg)
-                if handler := next((h for h in self.message_handlers if h.predicate(msg)), None):
-                    send_value = handler.runnable(msg)
+        while True:
+            try:
+                msg = gen.send(send_value)
+            except StopIteration as e:
+                self.return_value = e.value
+                break
+            if not msg:
+                break
+            send_value = None
+            messages.append(msg)
+            LOGGER.debug("<%s", msg)
+            if handler := next((h for h in self.message_handlers if h.predicate(msg)), None):
+                send_value = handler.runnable(msg)
 
-                if send_value:
-                    LOGGER.debug(f">send {send_value}")
-        except StopIteration as e:
-            self.return_value = e.value
+            if send_value:
+                LOGGER.debug(f">send {send_value}")
         return messages
 
     def _add_callback(self, msg_args):
